@@ -301,10 +301,10 @@ func (p *twkbParser) parseSize() error {
 	if err != nil {
 		return fmt.Errorf("size varint malformed: %w", err)
 	}
-	p.size = p.pos + int(bytesRemaining)
-	if p.size > len(p.twkb) {
+	if bytesRemaining > uint64(len(p.twkb)-p.pos) {
 		return fmt.Errorf("remaining input (%d bytes) smaller than size varint indicates (%d bytes)", len(p.twkb)-p.pos, bytesRemaining)
 	}
+	p.size = p.pos + int(bytesRemaining)
 	return nil
 }
 
@@ -617,6 +617,11 @@ func (p *twkbParser) parsePointCountAndArray() ([]float64, int, error) {
 // Utilise and update the running memory of the previous reference point.
 // The returned array will contain numPoints * the number of dimensions values.
 func (p *twkbParser) parsePointArray(numPoints int) ([]float64, error) {
+	// Every ordinate takes at least one byte, so the remaining input bounds the
+	// number of points (and guards the allocation against hostile counts).
+	if numPoints < 0 || numPoints > (len(p.twkb)-p.pos)/p.dimensions {
+		return nil, fmt.Errorf("point count %d exceeds the remaining input", numPoints)
+	}
 	coords := make([]float64, numPoints*p.dimensions)
 	c := 0
 	for i := 0; i < numPoints; i++ {
@@ -635,6 +640,10 @@ func (p *twkbParser) parsePointArray(numPoints int) ([]float64, error) {
 }
 
 func (p *twkbParser) parseIDList(numIDs int) error {
+	// Every ID takes at least one byte.
+	if numIDs < 0 || numIDs > len(p.twkb)-p.pos {
+		return fmt.Errorf("ID list count %d exceeds the remaining input", numIDs)
+	}
 	p.idList = make([]int64, numIDs)
 	for i := 0; i < numIDs; i++ {
 		id, err := p.parseSignedVarint()
